@@ -22,5 +22,8 @@ Definition run (c : sx) : sx :=
   | L [A 20; arg] => run_scan arg
   | L [A 21; arg] => run_puml arg
   | L [A 22; arg] => run_diagram arg
+  | L [A 31; arg] => run_wq_between arg
+  | L [A 32; arg] => run_wother true arg
+  | L [A 33; arg] => run_wother false arg
   | _ => sx_err
   end.
